@@ -331,6 +331,20 @@ CLAIMS["C19"]["text"] += " The texturing-property slot kind is exercised in the 
 CLAIMS["C06"]["text"] += (" The seeded edit sequences on the sample files also contain the NifFile-level composites (AddNode, SetParentNode, "
                           "DeleteNode, DeleteShape, DeleteShader, DeleteSkinning, AssignExtraData), judged by NifGraph!ModelOpViol.")
 
+CLAIMS["C02"]["text"] += (" The output of the first default save is compared with the second's unless that save pruned blocks; answers that name "
+                          "things (parents, bones, skeleton roots, shaders, textures) must survive every save; further inputs: values the storage "
+                          "formats cannot hold exactly, a skeleton root of its own, models built with emptied slots and match groups.")
+CLAIMS["C03"]["text"] += (" Further variants: a header string table holding a text twice, a file whose only unknown block is an empty one, an explicit "
+                          "shape order requested on a model with unknown blocks.")
+CLAIMS["C04"]["text"] += " The normalising raw save is judged too, and the sample models also run with emptied entries in their reference lists."
+CLAIMS["C06"]["text"] += " Every fourth model of the walk is also saved with the default options and loaded again."
+CLAIMS["C09"]["text"] += (" Constructed shapes carry a locked-normal list and (Oblivion) a second UV set; surviving triangles keep their segment and "
+                          "partition labels, and the partitions of constructed skinned shapes still hold every triangle once.")
+CLAIMS["C13"]["text"] += " Single setters and the composite fill also run on up to three shapes of every sample file."
+CLAIMS["C15"]["text"] += " Reference values far beyond the block count are part of the fault space; the quick-tier sample is stratified by corruption kind."
+CLAIMS["C17"]["text"] += " Segment cases also run on Fallout 76 shapes; partition assignments are followed by a vertex deletion."
+CLAIMS["C20"]["text"] += " Bounding spheres are also computed for small clouds far from the origin."
+
 
 def main():
     props = [json.loads(l) for l in open(os.path.join(ROOT, "properties.jsonl"))]
